@@ -504,6 +504,15 @@ def generate_cases(tool, pairs):
         for v in vals:
             singles.append([name] + v)
     cases = list(singles)
+    # the same option given twice with different values (the command line
+    # lets the last one win), directly and with another option in between
+    for k, (name, dest, vals) in enumerate(opts):
+        if len(vals) >= 2:
+            other = opts[(k + 1) % len(opts)]
+            for a, b in ((vals[0], vals[1]), (vals[1], vals[0])):
+                cases.append([name] + a + [name] + b)
+                cases.append([name] + a + [other[0]] + other[2][0] +
+                             [name] + b)
     if pairs:
         for (n1, d1, v1), (n2, d2, v2) in itertools.combinations(opts, 2):
             for a in v1[:2]:
